@@ -1635,6 +1635,9 @@ _resource_tracker""")),
         env.setdefault(key, value)
 """)),
 
+    M("leak-reader-not-closed-after-kill", ["C20"], ["R-LEAK"],
+      (PE, """        self.call_queue._reader.close()
+""", "")),
 ]
 
 
